@@ -197,3 +197,101 @@ Example c20_nonvacuous_handoff :
 Proof.
   split; [|split]; [eexists | eexists | ]; vm_compute; repeat split; reflexivity.
 Qed.
+
+(* ------------------------------------------------------------------------------------------------
+   Tie to the code (Gen/Fns.v is regenerated from layout.rs / base.rs / header.rs on every run by
+   tools/gen_fns.py): the layout and page-address arithmetic of Storage/Layout.v is equal to the functions
+   translated from the Rust sources, through the conversions rl_of / dl_of / pn_of of the generated records
+   (under the guards the code asserts where stated). *)
+From RV Require Import Gen.FnsLib Gen.Fns Gen.FnsLayoutP.
+
+Theorem c20_code_round_up_to_multiple_of_is_model : forall v m,
+  Fns.round_up_to_multiple_of v m = Layout.round_up_to_multiple_of v m.
+Proof. exact round_up_is_model. Qed.
+
+Theorem c20_code_region_layout_calculate_is_model : forall desired cap hdr ps,
+  rl_of (RegionLayout_calculate desired cap hdr ps) = rl_calculate desired cap hdr ps.
+Proof. exact rl_calculate_is_model. Qed.
+
+Theorem c20_code_region_layout_new_is_model : forall n h ps, rl_of (RegionLayout_new n h ps) = mkRL n h ps.
+Proof. exact rl_new_is_model. Qed.
+
+Theorem c20_code_region_layout_getters_are_model : forall r,
+  RegionLayout_num_pages r = rl_num_pages (rl_of r) /\
+  RegionLayout_get_header_pages r = rl_header_pages (rl_of r) /\
+  RegionLayout_page_size r = rl_page_size (rl_of r).
+Proof. exact rl_getters_are_model. Qed.
+
+Theorem c20_code_region_layout_usable_bytes_is_model : forall r,
+  RegionLayout_usable_bytes r = rl_usable (rl_of r).
+Proof. exact rl_usable_is_model. Qed.
+
+Theorem c20_code_region_layout_len_is_model : forall r, RegionLayout_len r = rl_len (rl_of r).
+Proof. exact rl_len_is_model. Qed.
+
+Theorem c20_code_region_layout_data_section_is_model : forall r,
+  RegionLayout_data_section r = (rl_data_start (rl_of r), (rl_data_start (rl_of r) + rl_usable (rl_of r))%N).
+Proof. exact rl_data_section_is_model. Qed.
+
+Theorem c20_code_database_layout_new_is_model : forall n f t,
+  dl_of (DatabaseLayout_new n f t) = mkDL (rl_of f) n (option_map rl_of t).
+Proof. exact dl_new_is_model. Qed.
+
+Theorem c20_code_database_layout_recalculate_is_model : forall file_len hdr cap ps,
+  dl_of (DatabaseLayout_recalculate file_len hdr cap ps) = dl_recalculate file_len hdr cap ps.
+Proof. exact dl_recalculate_is_model. Qed.
+
+Theorem c20_code_database_layout_calculate_is_model : forall desired cap hdr ps,
+  dl_of (DatabaseLayout_calculate desired cap hdr ps) = dl_calculate desired cap hdr ps.
+Proof. exact dl_calculate_is_model. Qed.
+
+Theorem c20_code_database_layout_num_regions_is_model : forall d,
+  DatabaseLayout_num_regions d = dl_num_regions (dl_of d).
+Proof. exact dl_num_regions_is_model. Qed.
+
+Theorem c20_code_database_layout_num_full_regions_is_model : forall d,
+  DatabaseLayout_num_full_regions d = dl_num_full (dl_of d).
+Proof. exact dl_num_full_is_model. Qed.
+
+Theorem c20_code_database_layout_region_base_address_is_model : forall d region,
+  DatabaseLayout_region_base_address d region = dl_region_base (dl_of d) region.
+Proof. exact dl_region_base_is_model. Qed.
+
+Theorem c20_code_database_layout_region_layout_is_model : forall d region,
+  DatabaseLayout_region_layout_guard d region = true ->
+  rl_of (DatabaseLayout_region_layout d region) = dl_region_layout (dl_of d) region.
+Proof. exact dl_region_layout_is_model. Qed.
+
+Theorem c20_code_database_layout_len_is_model : forall d,
+  DatabaseLayout_len_guard d = true -> DatabaseLayout_len d = dl_len (dl_of d).
+Proof. exact dl_len_is_model. Qed.
+
+Theorem c20_code_database_layout_usable_bytes_is_model : forall d,
+  DatabaseLayout_usable_bytes d = dl_usable (dl_of d).
+Proof. exact dl_usable_is_model. Qed.
+
+Theorem c20_code_layout_from_file_len_is_model : forall ps hdr cap fl,
+  option_map dl_of (UnrepairedDatabaseHeader_layout_from_file_len ps hdr cap fl) =
+  Layout.layout_from_file_len fl hdr cap ps.
+Proof. exact layout_from_file_len_is_model. Qed.
+
+Theorem c20_code_page_number_new_is_model : forall r i o, pn_of (PageNumber_new r i o) = mkPN r i o.
+Proof. exact pn_new_is_model. Qed.
+
+Theorem c20_code_page_size_bytes_is_model : forall p ps,
+  (PageNumber_f_page_order p <= MAX_MAX_PAGE_ORDER)%N ->
+  PageNumber_page_size_bytes p ps = Layout.page_size_bytes (pn_of p) ps.
+Proof. exact page_size_bytes_is_model. Qed.
+
+Theorem c20_code_address_range_is_model : forall p dso rsize rstart ps,
+  (PageNumber_f_page_order p <= MAX_MAX_PAGE_ORDER)%N ->
+  PageNumber_address_range p dso rsize rstart ps = Layout.address_range (pn_of p) dso rsize rstart ps.
+Proof. exact address_range_is_model. Qed.
+
+Theorem c20_code_mem_address_range_is_model : forall d p,
+  (PageNumber_f_page_order p <= MAX_MAX_PAGE_ORDER)%N ->
+  let f := DatabaseLayout_f_full_region_layout d in
+  PageNumber_address_range p (RegionLayout_page_size f) (RegionLayout_len f)
+    (fst (RegionLayout_data_section f)) (RegionLayout_page_size f)
+  = Layout.mem_address_range (dl_of d) (pn_of p).
+Proof. exact mem_address_range_is_model. Qed.
